@@ -762,7 +762,12 @@ def _manager_copies(ctx, n):
             if len(h.pool) < 2:
                 h.add(s.op(h.mid, 'var', rng.choice(names)))
                 continue
-            tt = TT(h.b, names)
+            cur = h.names()
+            if len(cur) > 8:
+                h.step(dict(var=2, hold=3, release=1, gc=1))
+                continue
+            sp = Space(cur)
+            tt = TT(h.b, cur)
             r = rng.random()
             if r < 0.25 and asked:
                 # the question the OTHER manager was asked (same operand numbers if still nodes here)
@@ -772,20 +777,22 @@ def _manager_copies(ctx, n):
             elif r < 0.85:
                 g, u, v = h.pick(), h.pick(), h.pick()
             else:
-                h.step(dict(var=2, hold=3, release=1, gc=1))
-                bad = h.check() or []
+                h.step(dict(var=2, hold=3, release=1, gc=1, swap=2, sift=0.5, order=0.5, declare=0.5))
+                # the OTHER manager must not notice (its order views still agree with each other)
+                bad = h.check() or order_views_ok(other.b) or other.check() or []
                 continue
             want = sp.ite(tt.of(g), tt.of(u), tt.of(v))
             ans = s.op(h.mid, 'ite', g, u, v)
             res = h.add(ans)
             asked.append((g, u, v))
             ctx.evaluations += 1
-            if res is None or TT(h.b, names).of(res) != want:
+            if res is None or TT(h.b, cur).of(res) != want:
                 ctx.violation('ite wrong in a manager and its copy working side by side', dict(
                     lines=list(s.lines), mgr=h.mid, got=ans, tags=dict(call='mcopy-ite')))
                 bad = ['reported']
                 break
-            bad = (h.check(probe=(rng.random() < 0.2)) or canon_problems(h.b, names)
+            bad = (h.check(probe=(rng.random() < 0.2))
+                   or (canon_problems(h.b, h.names()) if len(h.names()) <= 6 else [])
                    or other.check() or [])
         if bad and bad != ['reported']:
             ctx.violation('a manager or its copy is damaged', dict(
@@ -1346,6 +1353,11 @@ def check_C07(ctx):
         h = History(ctx, names)
         for _ in range(rng.randint(10, 40)):
             h.step(dict(var=4, apply=8, ite=2, hold=4, release=1))
+        if k % 3 == 1 and h.held:
+            # `bdd.roots` not empty, references of either sign (what dddmp.load and reduction leave)
+            rs = [u if rng.random() < 0.5 else -u for u in rng.sample(h.held, min(len(h.held), 3))]
+            h.s.op(0, 'set_roots', ','.join(map(str, sorted(set(rs)))))
+            ctx.count('roots-set')
         for _ in range(rng.randint(1, 5)):
             before = snapshot(h)
             kind = rng.choice(['swap', 'sift', 'order', 'pairs'])
